@@ -1035,6 +1035,13 @@ class Interp:
         elif isinstance(t, ast.Attribute):
             self.setattr(self.eval(t.value, env), t.attr, v)
         elif isinstance(t, ast.Subscript):
+            if isinstance(t.slice, ast.Slice) and t.slice.lower is None and t.slice.upper is None and t.slice.step is None:
+                # `xs[:] = ys`: replace the contents of the list in place (same object)
+                target = self.eval(t.value, env)
+                if not isinstance(target, list):
+                    raise OutOfSubset("slice assignment to a non-list")
+                target[:] = self.iterate_all(v)
+                return
             self.store_subscript(self.eval(t.value, env), self.eval(t.slice, env), v)
         else:
             raise OutOfSubset(f"assignment target {type(t).__name__}")
